@@ -80,7 +80,24 @@ def check_function(ctx, fi, rule="ITER-ONCE"):
                 work.extend(z for z, _ in y.succ)
             return False
 
-        weight = {n: (c * 2 if c and on_cycle(n) else c) for n, c in cost.items()}
+        def reevaluated(n):
+            """is the expression of node n evaluated more than once per call?  A for-loop
+            evaluates its iterable once per entry: its own body's back edges do not count."""
+            if n.kind != "loop":
+                return on_cycle(n)
+            seen, work = set(), [m for m, lab in n.succ if lab in ("done",)]
+            # break targets: the after-loop node is the successor reached by 'done'; breaks go there too
+            while work:
+                y = work.pop()
+                if y is n:
+                    return True
+                if y in seen:
+                    continue
+                seen.add(y)
+                work.extend(z for z, _ in y.succ)
+            return False
+
+        weight = {n: (c * 2 if c and reevaluated(n) else c) for n, c in cost.items()}
         memo = {}
 
         def best(n, stack):
